@@ -92,7 +92,9 @@ Inductive sstep :=
 | SLate (r : nat)        (* one request attempt (gate already open), wait for its outcome *)
 | SUntilRefused          (* repeat late attempts until one is refused (bounded) *)
 | SPause                 (* give the runner a bounded time to return (it must not) *)
-| SAwaitReturn.          (* wait until the runner has returned *)
+| SAwaitReturn           (* wait until the runner has returned *)
+| SSlowOpen (r : nat)    (* raw client: open a connection, send the request line and part of the headers *)
+| SSlowFinish (r : nat). (* ... send the rest of the headers, wait for the outcome *)
 
 (* the events the script forces, in the order it forces them *)
 Definition forced (s : sstep) : list event :=
